@@ -247,7 +247,7 @@ func (ps *parser) expr() Expr {
 			if ps.peek().kind == "id" && ps.peek().s == "in" {
 				ps.next()
 				q.Lo = ps.additive()
-				if c, ok := q.Lo.(*Call); ok && (c.Fun == "keys" || c.Fun == "type") && !ps.isOp("..") {
+				if c, ok := q.Lo.(*Call); ok && (c.Fun == "keys" || c.Fun == "type" || c.Fun == "elems") && !ps.isOp("..") {
 					// forall k in keys(m) :: body  -- k ranges over the keys present in map m
 					q.Hi = nil
 				} else {
